@@ -1,6 +1,7 @@
 /- the id map operations on a well-formed table: id_resize, nni_id_set, nni_id_remove, nni_id_alloc
    in terms of the content relation `Has` -/
 import NngModel.Proofs.IdResize
+import NngModel.Generated.C18
 namespace Nng.IdHash
 
 /-- well-formed id map: open-addressing invariant + capacity/limit bookkeeping -/
